@@ -407,6 +407,17 @@ class _resolve_called_lambdas(ast.NodeTransformer):
                 self._arg_map_list.pop()
                 return result
         # Not resolved here (e.g. defaulted parameters): names inside must still be substituted
+        if isinstance(node.func, ast.Lambda):
+            # Its parameters may get renamed on the way: the call's keywords follow the new names
+            old_names = [a.arg for a in node.func.args.args]
+            new_node = self.generic_visit(node)
+            if isinstance(new_node, ast.Call) and isinstance(new_node.func, ast.Lambda):
+                renamed = {o: a.arg for o, a in zip(old_names, new_node.func.args.args)}
+                new_node.keywords = [
+                    ast.keyword(arg=renamed.get(k.arg, k.arg), value=k.value)  # type: ignore
+                    for k in new_node.keywords
+                ]
+            return new_node
         return self.generic_visit(node)
 
     def visit_Lambda(self, node: ast.Lambda) -> Any:
